@@ -47,7 +47,7 @@ func defsC10(tier string) []*ph.Def {
 					unknown = 1 // require-order with warnings: an unknown option is a stop point like any other
 				}
 				d := &ph.Def{Mode: mode, Unknown: unknown, RequireOrder: ro, Root: ph.CmdDef{Name: "prog", NoFn: rootNoFn,
-					Opts: []ph.OptDef{{Name: "ra", Kind: ph.Bool}, {Name: "rs", Kind: ph.Str, DefS: "RD"}, {Name: "oo", Kind: ph.StrOpt, DefS: "OD"}, {Name: "sl", Kind: ph.StrS, Min: 1, Max: 2}, {Name: "cax", Kind: ph.Bool}}, // `--ca` abbreviates cax at the root and is the exact name of a command option
+					Opts: []ph.OptDef{{Name: "ra", Kind: ph.Bool}, {Name: "rs", Kind: ph.Str, DefS: "RD"}, {Name: "oo", Kind: ph.StrOpt, DefS: "OD"}, {Name: "sl", Kind: ph.StrS, Min: 1, Max: 2}, {Name: "cax", Kind: ph.Bool}, {Name: "x", Kind: ph.Bool}, {Name: "y", Kind: ph.Bool}}, // `--ca` abbreviates cax at the root and is the exact name of a command option
 					Cmds: cmds}}
 				out = append(out, d)
 			}
@@ -62,6 +62,19 @@ func defsC10(tier string) []*ph.Def {
 		add([]*ph.CmdDef{mk("c1", k), mk("c2", ck{0, 0, 0})}, false)
 	}
 	add([]*ph.CmdDef{mk("c1", ck{1, 0, 0})}, true)
+	// SetMode called after the commands were declared: the mode is program-wide all the same
+	{
+		n := len(out)
+		add([]*ph.CmdDef{mk("c1", ck{1, 0, 0}), mk("c2", ck{0, 0, 0})}, false)
+		var late []*ph.Def
+		for _, d := range out[n:] {
+			if d.Mode != 0 {
+				d.LateMode = true
+				late = append(late, d)
+			}
+		}
+		out = append(out[:n], late...)
+	}
 	// Self("", description) called on a command and on its sub-command: the name they were declared under still selects them
 	{
 		n := len(out)
@@ -196,7 +209,7 @@ func init() {
 	parserJudges["C10"] = func(pc *parserCase, verbose bool) []string { m, _ := c10Judge(pc, verbose); return m }
 	register(&Check{
 		ID:        "C10",
-		QuickSecs: 300, ThoroSecs: 3000,
+		QuickSecs: 900, ThoroSecs: 3000,
 		Rule: "input-space exploration: 47 command-tree shapes (depth <= 2, fan-out <= 2, options at every level, UnsetOptions wrappers, commands and root without CommandFn) x 3 modes x require-order (off, on the root, on a command only); every argv of length <= L over 15 tokens (command names, sub-command names, options of every level, an option whose value is a command name, an optional-value option with and without attached value, a []string option (1,2) whose extra value may be a command name, positional, terminator); " +
 			"instrumented CommandFns record which function ran, how often, with which context, arguments and option view; compared with the reference model (deepest command on the command path, remaining arguments, parsed values of own and inherited options); every in-domain argv of length <= 3 is also given to a program object that already served one of 5 earlier Parse+Dispatch rounds and must run the same function exactly once; distinct_nontrivial = distinct in-domain cases",
 		Assume: []string{"trees deeper than 2 / wider than 2 and argv longer than L are not covered", "cases where help or a missing required option intervenes belong to C11"},
@@ -206,7 +219,7 @@ func init() {
 				depth = 5
 			}
 			alpha := []string{"c1", "c2", "s1", "s2", "--ra", "--rs", "--rs=c1", "--oo", "--oo=x", "--ca", "--cs", "--sa", "p", "--", "--sl"}
-			ext := []string{"ze", "zeta", "c", "--zz"} // unique and ambiguous beginnings of command names; an unknown option
+			ext := []string{"ze", "zeta", "c", "--zz", "-ca", "-xy"} // unique and ambiguous beginnings of command names; an unknown option; single-dash spellings (`-xy`: two flags in Bundling mode, an unknown option in Normal mode)
 			defs := defsC10(c.Tier)
 			c.Res.Bounds = map[string]any{"L": depth, "alphabet": alpha, "definitions": len(defs)}
 			sw := &sweep{c: c, defs: defs, alpha: alpha, ext: ext, depth: depth}
